@@ -1,5 +1,5 @@
 (* Correspondence for C09: an instrumented child maker under Generation::serial_next / par_next. *)
-From Coq Require Import List ZArith Bool Arith.
+From Coq Require Import List ZArith Bool Arith Lia.
 From UEC Require Import Base.Wire Ec.Compose Ec.Generation.
 Import ListNotations.
 Local Open Scope Z_scope.
@@ -98,6 +98,29 @@ Definition bulk_ok (mode n fail_at : Z) (res : tree) (flen fexp calls saw pairs 
                     && (if mode =? 0 then calls =? fail_at + 1 else calls <=? n)
   | _ => false
   end.
+
+(* the counts any run of the model's serial step produces pass bulk_ok (with pairwise distinct draws and calls that saw the
+   old population): the bulk judgement demands nothing the model does not deliver *)
+Lemma bulk_ok_model {Ind R E} (cm : op R (list Ind) Ind E) pop r :
+  let n := Z.of_nat (length pop) in
+  let cs := calls cm (length pop) pop r in
+  let c := Z.of_nat (length cs) in
+  match serial_next cm pop r with
+  | (inl _, pop', _) => bulk_ok 0 n (-1) (L [A 0]) (Z.of_nat (length pop')) 1 c 1 c (Z.of_nat (made cs)) = true
+  | (inr _, pop', _) => bulk_ok 0 n (c - 1) (L [A 1; A (c - 1)]) (Z.of_nat (length pop')) 1 c 1 c (Z.of_nat (made cs)) = true
+  end.
+Proof.
+  cbv zeta. pose proof (serial_counts cm pop r) as H.
+  destruct (serial_next cm pop r) as [[[children|e] pop'] r'].
+  - destruct H as (H1 & H2 & _ & H4). rewrite H1, H2, H4. unfold bulk_ok.
+    rewrite !Z.eqb_refl. cbn [andb negb]. destruct (Z.ltb_spec (-1) (Z.of_nat (length pop))); reflexivity.
+  - destruct H as (-> & H2 & H3). unfold bulk_ok. rewrite !Z.eqb_refl. cbn [andb].
+    set (c := length (calls cm (length pop) pop r)) in *.
+    assert (Hm : Z.of_nat (made (calls cm (length pop) pop r)) = Z.of_nat c - 1) by lia.
+    rewrite Hm, Z.eqb_refl.
+    replace (Z.of_nat c - 1 + 1) with (Z.of_nat c) by lia. rewrite Z.eqb_refl. cbn [andb].
+    destruct (Z.leb_spec 0 (Z.of_nat c - 1)); [|lia]. destruct (Z.ltb_spec (Z.of_nat c - 1) (Z.of_nat (length pop))); [reflexivity|lia].
+Qed.
 
 Definition judge_general (t : tree) : option (list Z) :=
   match t with
